@@ -32,6 +32,9 @@ TABLE = {
     "C01": [_mk("B01", "operator precedence, associativity, parentheses, kind matrix and metadata constants against a reference evaluator written from the property text",
                 "21x21 operand pairs x 12 operators; 1500 random expression strings (depth <= 4) per seed; 15 fixed logic / metadata cases",
                 lambda repo, seed: adapters.run_expr_battery(repo, seed=seed or 1, count=1500))],
+    "C02": [_mk("B02", "statement programs (if / else-if chains, for with continue and break, nested loops, compound assignments, return, forRange over slice / map / array) against the same logic written in Go",
+                "5 program shapes x parameter 0..7, forRange over sizes 0..4",
+                lambda repo, seed: adapters.run_stmt_battery(repo))],
     "C03": [_mk("B03", "field / pointer-scalar writes across numeric classes, container reads and writes (missing keys, variable keys, pointer and value containers), calls with mixed-class arguments: host state against the property text",
                 "12 target kinds x 7 sources; 20 container cases; 3 call shapes; fixed values",
                 lambda repo, seed: adapters.run_inject_battery(repo))],
